@@ -5,17 +5,17 @@ import Asts.Proofs.L1_b_Prep
 One specification lemma per step function (`replaceFailed`, `ensurePod`, `replicaStep`, `replicaLoop`, `condemnedLoop`,
 `updateWalk`, `updateStage`), composed in `runLoops_spec`: every action of a run is *justified* (`Just`) by the prepared
 data, at most one action is an update-delete, and under OrderedReady all creates/deletes share one ordinal. -/
-namespace Asts
+namespace Asts.L1b
 open List
 
-def Ctl.st : Ctl → St | .next s => s | .done s _ => s
-def Ctl.isNext : Ctl → Bool | .next _ => true | .done _ _ => false
+def _root_.Asts.Ctl.stB : Ctl → St | .next s => s | .done s _ => s
+def _root_.Asts.Ctl.isNextB : Ctl → Bool | .next _ => true | .done _ _ => false
 
-def Action.ord : Action → Int | .create o _ => o | .delete o _ _ => o | .update o => o
+def _root_.Asts.Action.ord : Action → Int | .create o _ => o | .delete o _ _ => o | .update o => o
 /-- a create or a delete (the actions C05 counts) -/
-def Action.isCD : Action → Bool | .update _ => false | _ => true
+def _root_.Asts.Action.isCD : Action → Bool | .update _ => false | _ => true
 /-- a delete issued by the update walk -/
-def Action.isUpdDel : Action → Bool | .delete _ _ .update => true | _ => false
+def _root_.Asts.Action.isUpdDel : Action → Bool | .delete _ _ .update => true | _ => false
 
 /-- what one iteration of the replica loop at slot `(i, p0)` may emit -/
 inductive StepAct (v : SetView) (cur upd : String) (i : Int) (p0 : Pod) : Action → Prop
@@ -54,9 +54,9 @@ theorem replaceFailed_cases (v : SetView) (cur upd : String) (f : Faults) (s : S
     exact ⟨h, by simp only [h, Bool.false_eq_true, if_false]⟩
 
 theorem ensurePod_spec (cur upd : String) (f : Faults) (mono : Bool) (s : St) (i : Int) (p : Pod) :
-    ∃ l, (ensurePod cur upd f mono s i p).st.acts = s.acts ++ l ∧
+    ∃ l, (ensurePod cur upd f mono s i p).stB.acts = s.acts ++ l ∧
       (∀ a ∈ l, (a = .create i p.rev ∧ p.created = false) ∨ a = .update i) ∧
-      ((ensurePod cur upd f mono s i p).isNext = true → mono = true →
+      ((ensurePod cur upd f mono s i p).isNextB = true → mono = true →
         p.healthy = true ∧ ∀ a ∈ l, a.isCD = false) := by
   unfold ensurePod
   by_cases hc : p.created = true
@@ -65,53 +65,53 @@ theorem ensurePod_spec (cur upd : String) (f : Faults) (mono : Bool) (s : St) (i
     · cases mono
       · simp only [ht, Bool.and_false, Bool.false_eq_true, if_false]
         by_cases h3 : (p.idOk && p.stOk) = true
-        · simp only [h3, if_true]; exact ⟨[], by simp [Ctl.st], by simp, by simp⟩
+        · simp only [h3, if_true]; exact ⟨[], by simp [Ctl.stB], by simp, by simp⟩
         · simp only [h3, Bool.false_eq_true, if_false]
           by_cases h4 : f.hit 2 i = true
-          · simp only [h4, if_true]; exact ⟨[.update i], by simp [Ctl.st], by simp, by simp⟩
-          · simp only [h4, Bool.false_eq_true, if_false]; exact ⟨[.update i], by simp [Ctl.st], by simp, by simp⟩
-      · simp only [ht, Bool.and_true, if_true]; exact ⟨[], by simp [Ctl.st], by simp, by simp [Ctl.isNext]⟩
+          · simp only [h4, if_true]; exact ⟨[.update i], by simp [Ctl.stB], by simp, by simp⟩
+          · simp only [h4, Bool.false_eq_true, if_false]; exact ⟨[.update i], by simp [Ctl.stB], by simp, by simp⟩
+      · simp only [ht, Bool.and_true, if_true]; exact ⟨[], by simp [Ctl.stB], by simp, by simp [Ctl.isNextB]⟩
     · simp only [Bool.not_eq_true] at ht
       simp only [ht, Bool.false_and, Bool.false_eq_true, if_false]
       by_cases hrr : p.runningAndReady = true
       · have hh : p.healthy = true := by simp [Pod.healthy, hrr, ht]
         simp only [hrr, Bool.not_true, Bool.false_and, Bool.false_eq_true, if_false]
         by_cases h3 : (p.idOk && p.stOk) = true
-        · simp only [h3, if_true]; exact ⟨[], by simp [Ctl.st], by simp, by simp [hh]⟩
+        · simp only [h3, if_true]; exact ⟨[], by simp [Ctl.stB], by simp, by simp [hh]⟩
         · simp only [h3, Bool.false_eq_true, if_false]
           by_cases h4 : f.hit 2 i = true
           · simp only [h4, if_true]
-            exact ⟨[.update i], by simp [Ctl.st], by simp, by simp [hh, Action.isCD]⟩
+            exact ⟨[.update i], by simp [Ctl.stB], by simp, by simp [hh, Action.isCD]⟩
           · simp only [h4, Bool.false_eq_true, if_false]
-            exact ⟨[.update i], by simp [Ctl.st], by simp, by simp [hh, Action.isCD]⟩
+            exact ⟨[.update i], by simp [Ctl.stB], by simp, by simp [hh, Action.isCD]⟩
       · simp only [Bool.not_eq_true] at hrr
         cases mono
         · simp only [hrr, Bool.not_false, Bool.and_false, Bool.false_eq_true, if_false]
           by_cases h3 : (p.idOk && p.stOk) = true
-          · simp only [h3, if_true]; exact ⟨[], by simp [Ctl.st], by simp, by simp⟩
+          · simp only [h3, if_true]; exact ⟨[], by simp [Ctl.stB], by simp, by simp⟩
           · simp only [h3, Bool.false_eq_true, if_false]
             by_cases h4 : f.hit 2 i = true
-            · simp only [h4, if_true]; exact ⟨[.update i], by simp [Ctl.st], by simp, by simp⟩
-            · simp only [h4, Bool.false_eq_true, if_false]; exact ⟨[.update i], by simp [Ctl.st], by simp, by simp⟩
+            · simp only [h4, if_true]; exact ⟨[.update i], by simp [Ctl.stB], by simp, by simp⟩
+            · simp only [h4, Bool.false_eq_true, if_false]; exact ⟨[.update i], by simp [Ctl.stB], by simp, by simp⟩
         · simp only [hrr, Bool.not_false, Bool.and_true, if_true]
-          exact ⟨[], by simp [Ctl.st], by simp, by simp [Ctl.isNext]⟩
+          exact ⟨[], by simp [Ctl.stB], by simp, by simp [Ctl.isNextB]⟩
   · simp only [Bool.not_eq_true] at hc
     simp only [hc, Bool.not_false, if_true]
     by_cases h0 : f.hit 0 i = true
     · simp only [h0, if_true]
-      exact ⟨[.create i p.rev], by simp [Ctl.st], by simp, by simp [Ctl.isNext]⟩
+      exact ⟨[.create i p.rev], by simp [Ctl.stB], by simp, by simp [Ctl.isNextB]⟩
     · simp only [h0, Bool.false_eq_true, if_false]
       cases mono
       · simp only [Bool.false_eq_true, if_false]
-        exact ⟨[.create i p.rev], by simp [Ctl.st], by simp, by simp⟩
+        exact ⟨[.create i p.rev], by simp [Ctl.stB], by simp, by simp⟩
       · simp only [if_true]
-        exact ⟨[.create i p.rev], by simp [Ctl.st], by simp, by simp [Ctl.isNext]⟩
+        exact ⟨[.create i p.rev], by simp [Ctl.stB], by simp, by simp [Ctl.isNextB]⟩
 
 theorem replicaStep_spec (v : SetView) (cur upd : String) (f : Faults) (mono : Bool) (s : St) (i : Int) (p0 : Pod) :
-    ∃ l, (replicaStep v cur upd f mono s i p0).1.st.acts = s.acts ++ l ∧
+    ∃ l, (replicaStep v cur upd f mono s i p0).1.stB.acts = s.acts ++ l ∧
       (∀ a ∈ l, StepAct v cur upd i p0 a) ∧
       ((replicaStep v cur upd f mono s i p0).2 = p0 ∨ (replicaStep v cur upd f mono s i p0).2 = newPod v cur upd i) ∧
-      ((replicaStep v cur upd f mono s i p0).1.isNext = true →
+      ((replicaStep v cur upd f mono s i p0).1.isNextB = true →
         ((replicaStep v cur upd f mono s i p0).2.failed || (replicaStep v cur upd f mono s i p0).2.succeeded) = false ∧
         (mono = true → p0.healthy = true ∧ ∀ a ∈ l, a.isCD = false)) := by
   unfold replicaStep
@@ -126,7 +126,7 @@ theorem replicaStep_spec (v : SetView) (cur upd : String) (f : Faults) (mono : B
     · exact .upd
   · rw [he]
     simp only
-    refine ⟨[.delete i p0.id .replaceFailed], by simp [Ctl.st], ?_, by simp, by simp [Ctl.isNext]⟩
+    refine ⟨[.delete i p0.id .replaceFailed], by simp [Ctl.stB], ?_, by simp, by simp [Ctl.isNextB]⟩
     intro a ha
     simp only [List.mem_singleton] at ha
     subst ha
@@ -158,11 +158,11 @@ def RepAct (v : SetView) (cur upd : String) (mono : Bool) (reps : List (Int × P
 
 theorem replicaLoop_spec (v : SetView) (cur upd : String) (f : Faults) (mono : Bool) (reps : List (Int × Pod)) :
     ∀ (s : St) (c : Ctl) (reps' : List (Int × Pod)), replicaLoop v cur upd f mono s reps = (c, reps') →
-    ∃ l, c.st.acts = s.acts ++ l ∧
+    ∃ l, c.stB.acts = s.acts ++ l ∧
       (∀ a ∈ l, RepAct v cur upd mono reps a) ∧
       List.Forall₂ (SlotRel v cur upd) reps reps' ∧
       (mono = true → ∃ i, ∀ a ∈ l, a.isCD = true → a.ord = i) ∧
-      (c.isNext = true →
+      (c.isNextB = true →
         (∀ y ∈ reps', (y.2.failed || y.2.succeeded) = false) ∧
         (mono = true → (∀ x ∈ reps, x.2.healthy = true) ∧ ∀ a ∈ l, a.isCD = false)) := by
   induction reps with
@@ -170,7 +170,7 @@ theorem replicaLoop_spec (v : SetView) (cur upd : String) (f : Faults) (mono : B
     intro s c reps' h
     simp only [replicaLoop, Prod.mk.injEq] at h
     obtain ⟨rfl, rfl⟩ := h
-    exact ⟨[], by simp [Ctl.st], by simp, List.Forall₂.nil, fun _ => ⟨0, by simp⟩, fun _ => ⟨by simp, fun _ => by simp⟩⟩
+    exact ⟨[], by simp [Ctl.stB], by simp, List.Forall₂.nil, fun _ => ⟨0, by simp⟩, fun _ => ⟨by simp, fun _ => by simp⟩⟩
   | cons ip rest ih =>
     obtain ⟨i, p⟩ := ip
     intro s c reps' h
@@ -183,8 +183,8 @@ theorem replicaLoop_spec (v : SetView) (cur upd : String) (f : Faults) (mono : B
       have hrel : SlotRel v cur upd (i, p) (i, p') := ⟨rfl, h3⟩
       cases c1 with
       | next s' =>
-        simp only [Ctl.st] at h1
-        simp only [Ctl.isNext, forall_const] at h4
+        simp only [Ctl.stB] at h1
+        simp only [Ctl.isNextB, forall_const] at h4
         simp only at h
         cases hl : replicaLoop v cur upd f mono s' rest with
         | mk c2 rest' =>
@@ -226,13 +226,13 @@ theorem replicaLoop_spec (v : SetView) (cur upd : String) (f : Faults) (mono : B
       | done s' o =>
         simp only [Prod.mk.injEq] at h
         obtain ⟨rfl, rfl⟩ := h
-        simp only [Ctl.st] at h1
+        simp only [Ctl.stB] at h1
         refine ⟨l1, h1, ?_, List.Forall₂.cons hrel (List.forall₂_same.2 fun x _ => ⟨rfl, Or.inl rfl⟩), ?_, ?_⟩
         · intro a ha
           exact ⟨[], i, p, rest, rfl, h2 a ha, fun _ => by simp⟩
         · intro _
           exact ⟨i, fun a ha _ => (h2 a ha).ord_eq⟩
-        · intro hn; simp [Ctl.isNext] at hn
+        · intro hn; simp [Ctl.isNextB] at hn
 
 theorem forall₂_mem_left {α β : Type} {R : α → β → Prop} {l1 : List α} {l2 : List β} (h : List.Forall₂ R l1 l2)
     {x : α} (hx : x ∈ l1) : ∃ y ∈ l2, R x y := by
@@ -263,12 +263,12 @@ theorem slotRel_map_fst {v : SetView} {cur upd : String} {l1 l2 : List (Int × P
 /-! ### condemned loop -/
 
 theorem condemnedLoop_spec (cur upd : String) (f : Faults) (mono : Bool) (fu : Option Pod) (cs : List Pod) :
-    ∀ s : St, ∃ l, (condemnedLoop cur upd f mono fu s cs).st.acts = s.acts ++ l ∧
+    ∀ s : St, ∃ l, (condemnedLoop cur upd f mono fu s cs).stB.acts = s.acts ++ l ∧
       (∀ a ∈ l, ∃ c ∈ cs, a = .delete c.ord c.id .scaleDown ∧ (mono = true → cs.head? = some c)) ∧
       (mono = true → l.length ≤ 1) ∧
-      (mono = true → (condemnedLoop cur upd f mono fu s cs).isNext = true → cs = []) := by
+      (mono = true → (condemnedLoop cur upd f mono fu s cs).isNextB = true → cs = []) := by
   induction cs with
-  | nil => intro s; exact ⟨[], by simp [condemnedLoop, Ctl.st], by simp, by simp, by simp⟩
+  | nil => intro s; exact ⟨[], by simp [condemnedLoop, Ctl.stB], by simp, by simp, by simp⟩
   | cons c rest ih =>
     intro s
     rw [condemnedLoop]
@@ -281,15 +281,15 @@ theorem condemnedLoop_spec (cur upd : String) (f : Faults) (mono : Bool) (fu : O
         obtain ⟨d, hd, e, _⟩ := h2 a ha
         exact ⟨d, List.mem_cons_of_mem _ hd, e, by simp⟩
       · simp only [if_true]
-        exact ⟨[], by simp [Ctl.st], by simp, by simp, by simp [Ctl.isNext]⟩
+        exact ⟨[], by simp [Ctl.stB], by simp, by simp, by simp [Ctl.isNextB]⟩
     · simp only [ht, Bool.false_eq_true, if_false]
       by_cases hb : (!c.runningAndReady && mono && (Option.map (fun x => x.id) fu != some c.id)) = true
       · simp only [hb, if_true]
-        refine ⟨[], by simp [Ctl.st], by simp, by simp, by simp [Ctl.isNext]⟩
+        refine ⟨[], by simp [Ctl.stB], by simp, by simp, by simp [Ctl.isNextB]⟩
       · simp only [hb, Bool.false_eq_true, if_false]
         by_cases hf : f.hit 1 c.ord = true
         · simp only [hf, if_true]
-          exact ⟨[.delete c.ord c.id .scaleDown], by simp [Ctl.st], by simp, by simp, by simp [Ctl.isNext]⟩
+          exact ⟨[.delete c.ord c.id .scaleDown], by simp [Ctl.stB], by simp, by simp, by simp [Ctl.isNextB]⟩
         · simp only [hf, Bool.false_eq_true, if_false]
           cases mono
           · simp only [Bool.false_eq_true, if_false]
@@ -301,7 +301,7 @@ theorem condemnedLoop_spec (cur upd : String) (f : Faults) (mono : Bool) (fu : O
             · obtain ⟨d, hd, e, _⟩ := h2 a ha
               exact ⟨d, List.mem_cons_of_mem _ hd, e, by simp⟩
           · simp only [if_true]
-            exact ⟨[.delete c.ord c.id .scaleDown], by simp [Ctl.st], by simp, by simp, by simp [Ctl.isNext]⟩
+            exact ⟨[.delete c.ord c.id .scaleDown], by simp [Ctl.stB], by simp, by simp, by simp [Ctl.isNextB]⟩
 
 /-! ### update walk -/
 
@@ -430,13 +430,13 @@ theorem runLoops_spec (v : SetView) (cur upd : String) (f : Faults) (P : Prepare
       rw [List.filter_eq_nil_iff]; intro a ha; simp [(hl1 a ha).2]
     cases c with
     | done s o =>
-      simp only [Ctl.st] at a1
+      simp only [Ctl.stB] at a1
       simp only
       rw [a1]
       refine ⟨fun a ha => (hl1 a ha).1, by simp [hf1], fun hp => a4 (hmono' hp)⟩
     | next s =>
-      simp only [Ctl.st] at a1
-      simp only [Ctl.isNext, forall_const] at a5
+      simp only [Ctl.stB] at a1
+      simp only [Ctl.isNextB, forall_const] at a5
       simp only
       obtain ⟨l2, b1, b2, b3, b4⟩ := condemnedLoop_spec cur upd f mono P.fu P.condemned.reverse s
       have hl2 : ∀ a ∈ l2, Just v cur upd mono P a ∧ a.isUpdDel = false := by
@@ -448,7 +448,7 @@ theorem runLoops_spec (v : SetView) (cur upd : String) (f : Faults) (P : Prepare
       cases hcl : condemnedLoop cur upd f mono P.fu s P.condemned.reverse with
       | done s' o =>
         rw [hcl] at b1 b4
-        simp only [Ctl.st] at b1
+        simp only [Ctl.stB] at b1
         simp only
         rw [b1, a1]
         refine ⟨fun a ha => ?_, by simp [hf1, hf2], fun hp => ?_⟩
@@ -469,8 +469,8 @@ theorem runLoops_spec (v : SetView) (cur upd : String) (f : Faults) (P : Prepare
               · simp only [List.mem_singleton] at ha; rw [ha]⟩
       | next s' =>
         rw [hcl] at b1 b4
-        simp only [Ctl.st] at b1
-        simp only [Ctl.isNext, forall_const] at b4
+        simp only [Ctl.stB] at b1
+        simp only [Ctl.isNextB, forall_const] at b4
         simp only
         have hs' : (reps'.map (·.1)).Pairwise (· < ·) := by rw [slotRel_map_fst a3]; exact hs
         rcases updateStage_spec v cur upd f reps' s' hs' with h | ⟨hod, t, q, hq, hpt, e2, e3, _, _⟩
@@ -523,4 +523,4 @@ theorem runLoops_spec (v : SetView) (cur upd : String) (f : Faults) (P : Prepare
                 rw [hc] at hd; simp at hd
             · simp only [List.mem_singleton] at ha; rw [ha]; rfl
 
-end Asts
+end Asts.L1b
